@@ -32,9 +32,14 @@ Fixpoint find (f : errv -> option N) (e : errv) : option N :=
 
 Definition is_linux (e : errv) : option N := match e with LinuxErrno n => Some n | _ => None end.
 Definition is_sys (e : errv) : option N := match e with SysErrno n => Some n | _ => None end.
+(** errors.Is(err, os.ErrX): the sentinel itself, or a syscall.Errno whose Is method accepts it
+    (EACCES, EPERM: ErrPermission; EEXIST, ENOTEMPTY: ErrExist; ENOENT: ErrNotExist) *)
 Definition is_leaf (x : errv) (e : errv) : option N :=
   match x, e with
   | OsNotExist, OsNotExist | OsExist, OsExist | OsPermission, OsPermission | OsInvalid, OsInvalid => Some 0
+  | OsNotExist, SysErrno n => if n =? linux_ENOENT then Some 0 else None
+  | OsExist, SysErrno n => if (n =? linux_EEXIST) || (n =? linux_ENOTEMPTY) then Some 0 else None
+  | OsPermission, SysErrno n => if (n =? linux_EACCES) || (n =? linux_EPERM) then Some 0 else None
   | _, _ => None
   end.
 
